@@ -24,7 +24,7 @@ ASSUMPTIONS = [
     "x, y, layer and visualization are not part of stand-alone synth files (documented) and are excluded from the synth-context comparison",
 ]
 REQUIRED_LABELS = {
-    "quick": ["neg_min_ctl_at_min", "ctl_at_range_end", "dependent_ctl_set", "payload_nondefault", "options_set", "cmid_set", "empty_synth", "second_generation"],
+    "quick": ["neg_min_ctl_at_min", "ctl_at_range_end", "dependent_ctl_set", "payload_nondefault", "options_set", "cmid_set", "empty_synth", "second_generation", "earlier_copy_edited_then_copied_again"],
     "thorough": ["neg_min_ctl_at_min", "ctl_at_range_end", "dependent_ctl_set", "unit_changed", "payload_nondefault", "options_set", "cmid_set", "empty_synth", "sampler_with_samples", "sampler_with_effect", "metamodule_user_ctls", "name_straddles_32"]
     + ["type_" + t for t in build.attachable_types()],
 }
@@ -73,6 +73,18 @@ def check_module_spec(ctx, ms):
         raise PropertyViolation("C02.clone.type", "%s.clone() returned %r" % (tname, c))
     expect_equal(s0, snapshot.snap_module(c, in_project=False), "C02.clone", "%s clone()" % tname)
     expect_equal(s0, snapshot.snap_module(mod, in_project=False), "C02.clone.original_untouched", "%s changed by clone()" % tname)
+    # (b2) the copies obtained so far are edited - values inside the containers they hold included - and
+    # the unchanged original is cloned / its file is loaded once more: the later copies equal the
+    # original, whatever happened to the earlier ones
+    changed = build.scribble_nested(c, 1) + build.scribble_nested(back.module, 2)
+    if ms.get("then"):
+        build.apply_spec(c, dict(ms["then"], _ctor_as_sets=True))
+        changed += 1
+    if changed:
+        ctx.label("earlier_copy_edited_then_copied_again")
+        expect_equal(s0, snapshot.snap_module(mod, in_project=False), "C02.copy_edit.original_untouched", "%s changed by editing its clone / loaded copy" % tname)
+        expect_equal(s0, snapshot.snap_module(mod.clone(), in_project=False), "C02.clone.repeatable", "%s second clone() after the first clone was edited" % tname)
+        expect_equal(s0, snapshot.snap_module(read_sunvox_file(BytesIO(data1)).module, in_project=False), "C02.synth.reload_repeatable", "%s synth file loaded again after the first loaded copy was edited" % tname)
     # (c) project context (a fresh module built from the same recipe)
     mod2 = build.make_module(ms)
     p = Project()
